@@ -106,7 +106,8 @@ impl StateCheck for C05 {
                 pr.resize(us.len().max(pr.len()), 0.0);
                 us.resize(pr.len(), 0.0);
                 let add: Vec<f64> = us.iter().zip(&pr).map(|(u, p)| (u - p).max(0.0)).collect();
-                if add.iter().any(|x| *x > 1e-9) {
+                // below f32 rounding noise of the sums there is nothing to complete
+                if add.iter().any(|x| *x > 1e-6 * maxv.max(1.0)) {
                     expected.insert((car.to_string(), id), add);
                     out.nontrivial = true;
                     if pr.iter().any(|x| *x > 0.0) {
@@ -205,6 +206,10 @@ fn env_alphabet_v(t: usize, small: bool) -> Vec<Letter> {
     al.push(Letter::one(a(Some(1), z)));
     al.push(Letter::one(Line::U { id: Some(2), srv: "ACS", car: "EAMBIENTE", v: z.clone(), com: "BdC 2: SCOP 3 # x" }));
     al.push(Letter::one(Line::P { id: Some(2), src: "EAMBIENTE", v: vecs[0].clone(), com: "declarada" }));
+    if t == 2 {
+        // a reversible heat pump with auxiliaries: the output lines (also negative ones) are declared data
+        al.push(Letter::many(vec![u(Some(9), "CAL", "ELECTRICIDAD", z), u(Some(9), "REF", "ELECTRICIDAD", z), o(9, "CAL", z), o(9, "REF", &z.iter().map(|x| -x).collect::<Vec<_>>()), a(Some(9), z)]));
+    }
     if t == 2 && !small {
         // unusual but valid spellings of numbers and ids (two-digit and negative ids sort numerically)
         for raw in [
